@@ -84,6 +84,7 @@ func Main(c *run.Ctx) {
 		c.Floor("route:"+r, 1, 0)
 	}
 	c.Floor("canary pushes acknowledged and found intact", total/4, 0)
+	c.Floor("multi-portion bodies uploaded slowly while every INSERT fails", c.Pick(10, 200), 0)
 }
 
 func routeOf(h gen.HostileCase) string {
@@ -155,6 +156,21 @@ func Child(c *run.Ctx, name string) {
 		c.BeginCase(gi, hc)
 		if i < 2 {
 			c.Sample(map[string]any{"method": hc.Req.Method, "path": hc.Req.Path, "content_type": hc.Req.ContentType, "headers": hc.Req.Headers, "op": hc.Op, "body_prefix": fmt.Sprintf("%q", clip(hc.Req.Body, 160))})
+		}
+		if gi%400 == 123 {
+			// the database refuses every INSERT while a body of several MiB is still being uploaded: the early
+			// portions have failed for good before the parser has produced the later ones
+			led.SetScript(func(table string, nth int, blk *chw.Block) chw.Outcome { return chw.Err })
+			rr := c.Rng(fmt.Sprintf("c05/dbdown/%d", gi))
+			proto := []string{"loki-json-values", "loki-json-entries"}[rr.Intn(2)]
+			big := gen.Render(rr, proto, gen.NewLogCase(rr, gen.LogOpts{ID: fmt.Sprintf("dd%d", gi), Proto: proto, Streams: 4, MaxEntries: 3, BaseNs: 1700000000000000000, Huge: true}))
+			big.SlowUploadMs = 25
+			br := sess.Send(2, &big)
+			led.SetScript(nil)
+			c.Floor("multi-portion bodies uploaded slowly while every INSERT fails", 0, 1)
+			if br.Status >= 200 && br.Status < 300 {
+				c.Cover("db-down big body", "answered 2xx (C01's subject)", 1)
+			}
 		}
 		rec := sess.Send(1, &hc.Req)
 		timedOut := func(e string) bool {
